@@ -180,3 +180,23 @@ macro_rules! c16_parse {
         });
     };
 }
+
+/// digit strings do not depend on the digit type: to_radix_le(R) is identical in two representations of the same value
+/// ($A / $B of equal width, or narrow / wide)
+#[macro_export]
+macro_rules! c16_radix_same {
+    ($name:ident, $unw:expr, $A:ty, $AD:ty, $AN:expr, $B:ty, $BD:ty, $BN:expr, $R:expr, $MAXD:expr) => {
+        $crate::harness!($name, $unw, {
+            use $crate::util::*;
+            use bnum::cast::As;
+            let (x, xd) = <$A as BN<$AD, $AN>>::any();
+            let y: $B = x.as_();
+            let (va, vb) = (x.to_radix_le($R), y.to_radix_le($R));
+            assert!(va.len() == vb.len() && va.len() <= $MAXD, "same number of digits");
+            let mut k = 0;
+            while k < $MAXD { if k < va.len() && k < vb.len() { assert!(va[k] == vb[k], "same digits"); } k += 1; }
+            core::mem::forget(va); core::mem::forget(vb);
+            $crate::reach!(!dzero(&xd) && xd[$AN - 1] == 0, "top digit zero");
+        });
+    };
+}
